@@ -303,7 +303,9 @@ def run(ctx: Ctx) -> dict:
     if ctx.quick and len(pairs) > 110:
         same = [p for p in pairs if callsl[p[0]]["op"] == callsl[p[1]]["op"]]
         other = [p for p in pairs if p not in same]
-        pairs = rng.sample(same, min(len(same), 90)) + rng.sample(other, min(len(other), 20))
+        algo = [p for p in same if callsl[p[0]]["op"] == "algo.validate"]
+        rest = [p for p in same if p not in algo]          # every other same-kind pair: always
+        pairs = rest + rng.sample(algo, min(len(algo), 30)) + rng.sample(other, min(len(other), 20))
     counts = thr_jobs(ctx, [{"mode": "count", "calls": [callsl[a], callsl[b]]} for a, b in pairs], "cnt")
     ljobs, lmeta = [], []
     for (a, b), c in zip(pairs, counts):
@@ -311,7 +313,10 @@ def run(ctx: Ctx) -> dict:
         per_dir = 16 if ctx.quick else 10 ** 6
         for first, nfirst in ((1, n1), (2, n2)):
             step = max(1, nfirst // per_dir)
-            for k in range(0, nfirst + 1, step):
+            # quick: every second line of the first 80 (scratch is typically written early in a call)
+            # plus evenly spaced points over the rest; thorough: every line
+            points = sorted(set(range(0, nfirst + 1, step)) | set(range(0, min(nfirst, 80) + 1, 2)))
+            for k in points:
                 other = 2 if first == 1 else 1
                 turns = [[first, k], [other, 10 ** 6], [first, 10 ** 6]]
                 ljobs.append({"mode": "lines", "calls": [callsl[a], callsl[b]], "turns": turns})
